@@ -13,8 +13,10 @@ verus! {
 //@include lib/writeback.rs
 //@include lib/forest_iict.rs
 //@include lib/forest_incr.rs
+//@include lib/inv_specs.rs
 //@include lib/build_specs.rs
 //@include lib/search_specs.rs
 //@include lib/inv_store.rs
+//@include lib/inv_search.rs
 } // verus!
 fn main() {}
